@@ -284,7 +284,8 @@ def run(tier):
     rep.require_tlc_ok(r, "ConnLife contract model (all API calls x environment conditions)")
     flavs = FL.all_flavours("core" if tier == "quick" else "full")
     if tier == "quick":
-        flavs = [f for i, f in enumerate(flavs) if (i + env.SEED) % 3 == 0 or f["ver"] == 4]
+        flavs = [f for i, f in enumerate(flavs) if (i + env.SEED) % 3 == 0 or f["ver"] == 4 or f["ticket"] or f["resume"] != "none"
+                 or f["reqCert"] != "no"]
     refjobs = [(i, f, role) for i, f in enumerate(flavs) for role in ("c", "s")]
     with Pool(16) as pool:
         refs = pool.map(hs_reference, refjobs, chunksize=2)
